@@ -26,6 +26,21 @@ def make_statements(ctx, ns):
     for n in ns:
         line, meta = mpgen.statement(rng, n, max_dense=2 if n > 20 else 3)
         out.append((line, meta))
+    # polynomials whose evaluations have a special 64-bit limb structure (limb-wise code in the table-driven and
+    # bucket MSMs: all-ones limbs below zero limbs, one-word values with the top bits set, Montgomery-sparse values)
+    rinv = pow(1 << 256, -1, E.R)
+    vals = [(1 << 64) - 1, (1 << 128) - 1, (1 << 192) - 1, 0xff00000000000000, 0x8100000000000000, 1 << 63, 0xf800000000000000,
+            0xfff8000000000000, ((1 << 64) - 1) << 64, 32768, 1 << 95, 5 * rinv % E.R, ((1 << 64) - 1) * rinv % E.R]
+    for k in range(0, len(vals), 3):
+        grp = vals[k:k + 3]
+        ops = []
+        for v in grp:
+            i = rng.randrange(256)
+            sp = "s:%d=%x,%d=%x" % (i, v, (i + 1 + rng.randrange(200)) % 256, rng.choice(vals))
+            ops.append("%s %d %s" % (rng.choice(["n", "k"]), rng.choice([i, rng.randrange(256)]), sp))
+        lab = b"limbs"
+        out.append(("mpc %s 1 - %s" % (E.hx(lab), " ".join(ops)),
+                    {"n": len(grp), "zpat": "limb-structured values", "label": lab, "zs": [int(o.split()[1]) for o in ops]}))
     return out
 
 
